@@ -279,11 +279,8 @@ pub fn build(tier: &str) -> SimCheck {
         for pool_size in [1u32, 2] {
             // every program against the multi-statement transaction and against itself
             for p in PROGRAMS {
-                let others: Vec<&str> = if thorough { PROGRAMS.to_vec() } else { vec!["txn", "copyin"] };
+                let others: Vec<&str> = PROGRAMS.to_vec();
                 for o in others {
-                    if !thorough && *p == "copyin" && o == "copyin" {
-                        continue;
-                    }
                     scenarios.push(scenario(mode, pool_size, &[p, o], Gate::PerReply));
                 }
             }
@@ -301,8 +298,8 @@ pub fn build(tier: &str) -> SimCheck {
     SimCheck {
         scenarios,
         oracle: Box::new(oracle),
-        bound: if thorough { 2 } else { 1 },
-        limits: Limits { max_wall_s: if thorough { 1500.0 } else { 50.0 }, ..Default::default() },
+        bound: if thorough { 3 } else { 2 },
+        limits: Limits { max_wall_s: if thorough { 2400.0 } else { 50.0 }, ..Default::default() },
         rule: "scenario = pool mode x pool_size x tuple of client programs (simple, multi-statement, failed, extended, pipelined, COPY in/out/fail transactions); every schedule of client sends, backend reply deliveries and checkouts with at most `bound` deviations from run-to-completion order; distinct = distinct observable end-to-end histories".into(),
         assumptions: vec![
             "reference backend (mockpg) is the trusted model of a PostgreSQL session".into(),
